@@ -58,6 +58,12 @@ impl Distribution for Gamma {
     /// Uses the algorithm from Marsaglia and Tsang 2000. Applies the squeeze
     /// method and has nearly constant average time for `alpha >= 1`.
     fn sample(&self) -> f64 {
+        // The Marsaglia-Tsang method needs a shape of at least 1. For smaller shapes, draw from
+        // Gamma(alpha + 1) and use Gamma(alpha) = Gamma(alpha + 1) * U^(1 / alpha).
+        if self.alpha < 1. {
+            let boost = self.uniform_gen.sample().powf(1. / self.alpha);
+            return Gamma::new(self.alpha + 1., self.beta).sample() * boost;
+        }
         let d = self.alpha - 1. / 3.;
         loop {
             let (x, v) = loop {
